@@ -53,6 +53,8 @@ declare -A PROPS=(
  [r5-c12-grow-clears-old-slot]="C12"
  [r5-c14-seqlock-update-not-atomic]="C14"
  [r5-c17-hp-abandon-active-count]="C17 C18"
+ [r5-c06-kirsch-bounded-behind-head]="C06"
+ [r5-c13-leftright-wait-hoisted]="C13"
 )
 if ! git -C /repo diff --quiet -- xenium; then echo "/repo has uncommitted changes under xenium/: refusing"; exit 2; fi
 for d in seeded/*/; do
